@@ -41,6 +41,8 @@ type chainCase struct {
 	Probe    int       `json:"sibling_route_with_handler_prefix,omitempty"`               // >0: a sibling route /probe is registered with the first Probe handlers of the very slice /x is given (and requested first, or second when negative)
 	Wrapper  bool      `json:"handler_wrapper,omitempty"`                                 // Router.HandlerWrapper turns the reflective func(Context,*http.Request) handlers into a FastInvoker
 	SharedMW bool      `json:"middleware_through_handlers_from_a_shared_slice,omitempty"` // all but the last middleware are installed with Handlers(slice...) from a slice with spare capacity, the last one with Use; a second instance is then set up from the same slice with a Use of its own
+	Scribble bool      `json:"caller_overwrites_its_slices_after_setup,omitempty"`        // func(Context) handlers are handed over as explicit ContextInvoker values, and every slice given to Use / Group / Route / NotFound is overwritten by the caller once the call has returned (a scratch slice reused for the next declaration)
+	Cleared  bool      `json:"middleware_stack_cleared_first,omitempty"`                  // two middleware are installed and then Handlers() is called without arguments (documented to clear the stack) before the real set-up
 	BadSetup bool      `json:"failed_setup_calls,omitempty"`                              // after set-up, Use(h, 42, h) and NotFound(h, "oops") are attempted and fail loudly (recovered): nothing of them may be left behind
 	Method   string    `json:"method,omitempty"`                                          // GET (default) | HEAD | POST: for HEAD no body byte is forwarded, yet a body write still counts as "written"
 }
@@ -151,6 +153,8 @@ func genChainCase(r *rand.Rand) *chainCase {
 	}
 	c.SharedMW = len(c.MW) >= 2 && r.Intn(5) == 0
 	c.BadSetup = r.Intn(6) == 0
+	c.Scribble = r.Intn(5) == 0
+	c.Cleared = r.Intn(8) == 0
 	c.Method = []string{"GET", "GET", "GET", "HEAD", "HEAD", "POST"}[r.Intn(6)]
 	c.Wrapper = r.Intn(4) == 0
 	if len(c.RH) >= 2 && r.Intn(5) == 0 {
@@ -338,10 +342,11 @@ func (s *chainSpy) Write(b []byte) (int, error) {
 }
 
 type chainExec struct {
-	tr      []string
-	entered map[int]int
-	cancel  gocontext.CancelFunc
-	reenter string
+	explicitFast bool
+	tr           []string
+	entered      map[int]int
+	cancel       gocontext.CancelFunc
+	reenter      string
 }
 
 func (x *chainExec) mk(i int, h *hspec) flamego.Handler {
@@ -419,6 +424,9 @@ func (x *chainExec) mk(i int, h *hspec) flamego.Handler {
 	}
 	if h.Reflect {
 		return func(c flamego.Context, _ *http.Request) { body(c) } // not auto-wrapped: reflective invocation
+	}
+	if x.explicitFast {
+		return flamego.ContextInvoker(body) // already a FastInvoker when it is handed over
 	}
 	return body // func(Context): wrapped into the ContextInvoker fast path
 }
@@ -537,6 +545,22 @@ func judgeChain(w *core.W, c *chainCase) {
 	junk := func(id int) flamego.Handler {
 		return func() { x.tr = append(x.tr, fmt.Sprintf("left-behind-handler-%d-ran", id)) }
 	}
+	x.explicitFast = c.Scribble
+	scribble := func(hs []flamego.Handler) {
+		if c.Scribble {
+			for i := range hs {
+				hs[i] = flamego.ContextInvoker(func(flamego.Context) { x.tr = append(x.tr, "handler-written-into-the-caller's-slice-later-ran") })
+			}
+		}
+	}
+	if c.Scribble {
+		w.Count("caller-overwrites-its-slices")
+	}
+	if c.Cleared {
+		f.Use(junk(700), junk(701))
+		f.Handlers()
+		w.Count("middleware-stack-cleared-first")
+	}
 	if c.SharedMW && len(c.MW) >= 2 {
 		k := len(c.MW) - 1
 		common := make([]flamego.Handler, 0, k+4)
@@ -545,7 +569,9 @@ func judgeChain(w *core.W, c *chainCase) {
 			idx++
 		}
 		f.Handlers(common...)
-		f.Use(x.mk(idx, &c.MW[k]))
+		last := []flamego.Handler{x.mk(idx, &c.MW[k])}
+		f.Use(last...)
+		scribble(last)
 		idx++
 		other := flamego.NewWithLogger(io.Discard)
 		other.Handlers(common...)
@@ -553,7 +579,9 @@ func judgeChain(w *core.W, c *chainCase) {
 		w.Count("middleware-from-a-shared-slice")
 	} else {
 		for i := range c.MW {
-			f.Use(x.mk(idx, &c.MW[i]))
+			one := []flamego.Handler{x.mk(idx, &c.MW[i])}
+			f.Use(one...)
+			scribble(one)
 			idx++
 		}
 	}
@@ -564,6 +592,7 @@ func judgeChain(w *core.W, c *chainCase) {
 			nfs = append(nfs, x.mk(nfBase+i, &c.NF[i]))
 		}
 		f.NotFound(nfs...)
+		scribble(nfs)
 		idx = nfBase + len(c.NF)
 	}
 	// the routed chain is always registered (for an unrouted request it must stay silent)
@@ -586,6 +615,7 @@ func judgeChain(w *core.W, c *chainCase) {
 				f.Route(c.method(), "/probe", rhs[:c.Probe])
 			}
 			f.Route(c.method(), "/x", rhs)
+			scribble(rhs)
 			return
 		}
 		var ghs []flamego.Handler
@@ -595,6 +625,7 @@ func judgeChain(w *core.W, c *chainCase) {
 		}
 		path += fmt.Sprintf("/g%d", g)
 		f.Group(fmt.Sprintf("/g%d", g), func() { register(g + 1) }, ghs...)
+		scribble(ghs)
 	}
 	register(0)
 	if !c.NotFound {
@@ -753,7 +784,7 @@ func runC03(r *core.Run) {
 		judgeChain(w, c)
 	})
 	r.Gate("distinct_nontrivial", r.NonTrivialCount(), 2000)
-	for _, k := range []string{"nil-action-reached", "not-found-chain", "panic-unwound", "next-twice-in-one-handler", "cancel-executed", "deadline-expired-executed", "write-via:wrap", "write-via:mount", "middleware-from-a-shared-slice", "failed-setup-calls-before-serving", "chain>=64-handlers", "cancel-of-replaced-request-context", "head-request-written", "sibling-route-with-shared-handler-prefix"} {
+	for _, k := range []string{"nil-action-reached", "not-found-chain", "panic-unwound", "next-twice-in-one-handler", "cancel-executed", "deadline-expired-executed", "write-via:wrap", "write-via:mount", "middleware-from-a-shared-slice", "failed-setup-calls-before-serving", "caller-overwrites-its-slices", "middleware-stack-cleared-first", "chain>=64-handlers", "cancel-of-replaced-request-context", "head-request-written", "sibling-route-with-shared-handler-prefix"} {
 		r.GateCounter(k, 50)
 	}
 }
